@@ -106,6 +106,153 @@ def _block(job):
         faulthandler.cancel_dump_traceback_later()
 
 
+def run_blocks(jobs, workers):
+    """Every block runs in its own child forked from this (pristine) process, so that
+    process-global state of the system under test (module-level caches) can only flow
+    from a run to later runs of the same block - a block is one exactly repeatable
+    execution.  Returns the block results in job order."""
+    import pickle
+    import tempfile
+    results = [None] * len(jobs)
+    active = {}
+    nxt = 0
+    tmpdir = tempfile.mkdtemp(prefix="vsim-blk-", dir="/dev/shm")
+    try:
+        while nxt < len(jobs) or active:
+            while nxt < len(jobs) and len(active) < workers:
+                path = os.path.join(tmpdir, "%d.pkl" % nxt)
+                sys.stdout.flush()
+                sys.stderr.flush()
+                pid = os.fork()
+                if pid == 0:
+                    code = 0
+                    try:
+                        r = _block(jobs[nxt])
+                        with open(path + ".tmp", "wb") as f:
+                            pickle.dump(r, f, protocol=4)
+                        os.rename(path + ".tmp", path)
+                    except BaseException:
+                        code = 3
+                    finally:
+                        os._exit(code)
+                active[pid] = (nxt, path)
+                nxt += 1
+            pid, status = os.wait()
+            if pid not in active:
+                continue
+            idx, path = active.pop(pid)
+            if os.path.exists(path):
+                with open(path, "rb") as f:
+                    results[idx] = pickle.load(f)
+                os.unlink(path)
+            else:
+                results[idx] = {"start": jobs[idx][3], "harness_error": "worker for block %d died (status %d)" % (idx, status)}
+    finally:
+        import shutil
+        shutil.rmtree(tmpdir, ignore_errors=True)
+    return results
+
+
+class Zygote(object):
+    """A child forked from the pristine parent before anything was executed.  Each
+    request (prefix histories, cfg, ops) is evaluated in a grandchild forked from it,
+    i.e. from pristine process-global state, and answered with the violation signature
+    (and detail) of the LAST history."""
+
+    def __init__(self, machine_cls, known):
+        import pickle
+        self.pickle = pickle
+        self.req_r, self.req_w = os.pipe()
+        self.ans_r, self.ans_w = os.pipe()
+        sys.stdout.flush()
+        sys.stderr.flush()
+        self.pid = os.fork()
+        if self.pid == 0:
+            os.close(self.req_w)
+            os.close(self.ans_r)
+            try:
+                self._serve(machine_cls)
+            finally:
+                os._exit(0)
+        os.close(self.req_r)
+        os.close(self.ans_w)
+
+    @staticmethod
+    def _read(fd, n):
+        buf = b""
+        while len(buf) < n:
+            c = os.read(fd, n - len(buf))
+            if not c:
+                return None
+            buf += c
+        return buf
+
+    def _serve(self, machine_cls):
+        while True:
+            hdr = self._read(self.req_r, 8)
+            if hdr is None:
+                return
+            req = self.pickle.loads(self._read(self.req_r, int.from_bytes(hdr, "big")))
+            pid = os.fork()
+            if pid == 0:
+                ans = (None, "")
+                try:
+                    prefix, cfg, ops, known = req
+                    for pc, po in prefix:
+                        try:
+                            execute(machine_cls, pc, po, known)
+                        except Exception:
+                            pass
+                    viol, _ = execute(machine_cls, cfg, ops, known)
+                    if viol is not None:
+                        ans = (viol.signature, str(viol.detail)[:2000])
+                except BaseException as e:  # harness exception inside the history
+                    ans = ("harness-exception", repr(e))
+                data = self.pickle.dumps(ans)
+                os.write(self.ans_w, len(data).to_bytes(8, "big") + data)
+                os._exit(0)
+            os.waitpid(pid, 0)
+
+    def evaluate(self, prefix, cfg, ops, known):
+        data = self.pickle.dumps((prefix, cfg, ops, list(known)))
+        os.write(self.req_w, len(data).to_bytes(8, "big") + data)
+        hdr = self._read(self.ans_r, 8)
+        if hdr is None:
+            raise HarnessError("zygote died")
+        return self.pickle.loads(self._read(self.ans_r, int.from_bytes(hdr, "big")))
+
+    def close(self):
+        try:
+            os.close(self.req_w)
+            os.close(self.ans_r)
+            os.waitpid(self.pid, 0)
+        except Exception:
+            pass
+
+
+def ddmin_list(items, test, t_end):
+    """Generic ddmin over a list (used for the prefix of context histories)."""
+    items = list(items)
+    n = 2
+    while len(items) >= 1 and time.monotonic() < t_end:
+        if test([]):
+            return []
+        chunk = max(1, len(items) // n)
+        reduced = False
+        for s0 in range(0, len(items), chunk):
+            cand = items[:s0] + items[s0 + chunk:]
+            if test(cand):
+                items = cand
+                n = max(n - 1, 2)
+                reduced = True
+                break
+        if not reduced:
+            if chunk == 1:
+                break
+            n = min(n * 2, len(items))
+    return items
+
+
 def _same_sig(machine_cls, cfg, ops, signature, known_without):
     try:
         viol, _ = execute(machine_cls, cfg, ops, known_without)
@@ -171,7 +318,7 @@ def repo_head():
         return "unknown"
 
 
-def write_replay(prop, verif_seed, index, tier, cfg, ops, signature, detail, hashseeds=None):
+def write_replay(prop, verif_seed, index, tier, cfg, ops, signature, detail, hashseeds=None, prefix=None):
     d = os.path.join(OUT, "replays", prop)
     os.makedirs(d, exist_ok=True)
     path = os.path.join(d, "%d-%d%s.json" % (verif_seed, index, "-x" if hashseeds else ""))
@@ -180,6 +327,8 @@ def write_replay(prop, verif_seed, index, tier, cfg, ops, signature, detail, has
            "detail": detail, "menpo_head": repo_head()}
     if hashseeds:
         rec["hashseeds"] = hashseeds
+    if prefix:
+        rec["prefix"] = [[c, o] for c, o in prefix]
     with open(path, "w") as f:
         json.dump(rec, f, indent=1)
     return path
@@ -206,6 +355,13 @@ def replay_file(path, verbose=True):
             return 1
         print("REPLAY: no difference between interpreters (expected %s)" % r["expected_signature"])
         return 0
+    for pc, po in r.get("prefix", []):
+        try:
+            execute(machine_cls, pc, po, ())
+        except Exception:
+            pass
+    if verbose and r.get("prefix"):
+        print("  (after %d earlier histories executed in this process)" % len(r["prefix"]))
     viol, ctx = execute(machine_cls, r["cfg"], r["ops"], (), trace=True)
     if verbose:
         for op in r["ops"]:
@@ -286,12 +442,13 @@ def cross_differs(servers, cfg, ops):
     return any(o != outs[0] for o in outs[1:])
 
 
-def fresh_digests(prop, tier, verif_seed, n, hashseed, shard=(0, 1)):
+def fresh_digests(prop, tier, verif_seed, n, hashseed, shard=(0, 1), block=None):
     env = dict(os.environ)
     env["PYTHONHASHSEED"] = str(hashseed)
     env["VERIF_SEED"] = str(verif_seed)
     p = subprocess.run([sys.executable, os.path.join(VERIF, "vsim", "cli.py"), prop,
-                        "--tier", tier, "--digests", str(n), "--shard", "%d/%d" % shard], capture_output=True,
+                        "--tier", tier, "--digests", str(n), "--shard", "%d/%d" % shard,
+                        "--block", str(block or n)], capture_output=True,
                        text=True, env=env, timeout=3000)
     if p.returncode != 0:
         raise HarnessError("digest subprocess failed: %s" % p.stderr[-2000:])
@@ -299,12 +456,19 @@ def fresh_digests(prop, tier, verif_seed, n, hashseed, shard=(0, 1)):
     return {int(k): tuple(v) for k, v in json.loads(line[8:]).items()}
 
 
-def compute_digests(machine_cls, tier, verif_seed, n, known, shard=(0, 1)):
+def compute_digests(machine_cls, tier, verif_seed, n, known, shard=(0, 1), block=None):
+    """Digests of runs [0, n), executed block by block exactly as the worker pool does
+    (each block in a child forked from this pristine interpreter); a shard takes every
+    shard[1]-th block."""
+    block = block or n
+    prop = machine_cls.PROPERTY
+    starts = list(range(0, n, block))[shard[0]::shard[1]]
+    jobs = [(prop, tier, verif_seed, s0, min(s0 + block, n), n, known, None, n) for s0 in starts]
     out = {}
-    for i in range(shard[0], n, shard[1]):
-        cfg, ops = history(machine_cls, tier, verif_seed, i, n)
-        _, ctx = execute(machine_cls, cfg, ops, known)
-        out[i] = (ops_digest(cfg, ops), ctx.outcome_digest())
+    for r in run_blocks(jobs, 1):
+        if r is None or "harness_error" in r:
+            raise HarnessError("digest block failed: %s" % (r or {}).get("harness_error"))
+        out.update(r["digests"])
     return out
 
 
@@ -337,30 +501,23 @@ def run_check(prop, tier, verif_seed, workers=None, out=sys.stdout):
     viols, kinds, digests, samples = [], set(), {}, []
     done = 0
     harness_errors = []
-    ctxmp = multiprocessing.get_context("fork")
-    with ProcessPoolExecutor(max_workers=workers, mp_context=ctxmp) as ex:
-        futs = [ex.submit(_block, j) for j in jobs]
-        for f in futs:
-            try:
-                r = f.result(timeout=wall + 1200)
-            except Exception as e:  # dead worker, timeout
-                harness_errors.append("worker failure: %r" % (e,))
-                continue
-            if "harness_error" in r:
-                harness_errors.append(r["harness_error"])
-                continue
-            done += r["done"]
-            viols.extend(r["viols"])
-            kinds |= r["kinds"]
-            digests.update(r["digests"])
-            if len(samples) < 3:
-                samples.extend(r["samples"])
-            part = Ctx()
-            part.probes.update(r["probes"]); part.faults.update(r["faults"])
-            part.opkinds.update(r["opkinds"]); part.states = r["states"]
-            part.known_hits.update(r["known_hits"]); part.maxerr = r["maxerr"]
-            part.steps = r["steps"]; part.checks = r["checks"]
-            total.merge(part)
+    zygote = Zygote(machine_cls, known)     # forked before anything is executed here
+    for r in run_blocks(jobs, workers):
+        if r is None or "harness_error" in r:
+            harness_errors.append((r or {}).get("harness_error", "missing block result"))
+            continue
+        done += r["done"]
+        viols.extend(r["viols"])
+        kinds |= r["kinds"]
+        digests.update(r["digests"])
+        if len(samples) < 3:
+            samples.extend(r["samples"])
+        part = Ctx()
+        part.probes.update(r["probes"]); part.faults.update(r["faults"])
+        part.opkinds.update(r["opkinds"]); part.states = r["states"]
+        part.known_hits.update(r["known_hits"]); part.maxerr = r["maxerr"]
+        part.steps = r["steps"]; part.checks = r["checks"]
+        total.merge(part)
 
     exit_code = 0
     lines = []
@@ -373,12 +530,12 @@ def run_check(prop, tier, verif_seed, workers=None, out=sys.stdout):
     # interpreter under another PYTHONHASHSEED
     determinism = {"runs": 0, "ok": True}
     if exit_code == 0 and n_dig and not os.environ.get("VERIF_NO_SELFTEST"):
-        n_self = min(n_dig, 32) if getattr(machine_cls, "CROSS_HASHSEEDS", None) else n_dig
+        n_self = min(n_dig, 32, bs) if getattr(machine_cls, "CROSS_HASHSEEDS", None) else min(n_dig, bs)
         have = {i: d for i, d in digests.items() if i < n_self}
-        again = compute_digests(machine_cls, tier, verif_seed, n_self, known)
+        again = run_blocks([(prop, tier, verif_seed, 0, n_self, n_random, known, None, n_self)], 1)[0]["digests"]
         # same interpreter hash seed for CROSS machines (other seeds are the property itself)
         fresh = fresh_digests(prop, tier, verif_seed, n_self,
-                              0 if getattr(machine_cls, "CROSS_HASHSEEDS", None) else 12345)
+                              0 if getattr(machine_cls, "CROSS_HASHSEEDS", None) else 12345, block=n_self)
         bad = [i for i in have if have[i] != again[i] or have[i] != fresh[i]]
         determinism = {"runs": len(have), "ok": not bad, "in_process_twice": True,
                        "fresh_interpreter_hashseed": 12345}
@@ -397,7 +554,7 @@ def run_check(prop, tier, verif_seed, workers=None, out=sys.stdout):
         shards = max(1, workers // len(hss))
         jobs2 = [(h, (sh, shards)) for h in hss for sh in range(shards)]
         with ThreadPoolExecutor(max_workers=len(jobs2)) as tp:
-            res = list(tp.map(lambda j: (j[0], fresh_digests(prop, tier, verif_seed, n_dig, j[0], j[1])), jobs2))
+            res = list(tp.map(lambda j: (j[0], fresh_digests(prop, tier, verif_seed, n_dig, j[0], j[1], block=bs)), jobs2))
         compared = 0
         for h, dg in res:
             for i, (od, outd) in dg.items():
@@ -448,25 +605,46 @@ def run_check(prop, tier, verif_seed, workers=None, out=sys.stdout):
                     if exit_code == 0:
                         exit_code = 2
                 continue
-            small = shrink(machine_cls, cfg, ops, sig, known)
-            try:
-                v2, _ = execute(machine_cls, cfg, small, [k for k in known if k != sig])
-                if v2 is not None and v2.signature == sig:
-                    detail = str(v2.detail)[:2000]
-            except Exception:
-                pass
-            path = write_replay(prop, verif_seed, i, tier, cfg, small, sig, detail)
+            kn = [k for k in known if k != sig]
+            t_end = time.monotonic() + 150.0
+            prefix = []
+            got = zygote.evaluate([], cfg, ops, kn)
+            if got[0] != sig:
+                # not reproducible on its own: the violation needs process-global state left behind
+                # by earlier runs of the same block (e.g. a module-level cache in the code under test)
+                s0 = (i // bs) * bs if i < n_random else n_random + ((i - n_random) // bs) * bs
+                if i < n_random:
+                    prefix = [history(machine_cls, tier, verif_seed, j, n_random) for j in range(s0, i)]
+                else:
+                    prefix = list(itertools.islice(machine_cls.exhaustive(tier), s0 - n_random, i - n_random))
+                got = zygote.evaluate(prefix, cfg, ops, kn)
+                if got[0] != sig:
+                    lines.append("HARNESS-ERROR property=%s run %d: %s is not reproducible even with its block prefix (got %s)"
+                                 % (prop, i, sig, got[0]))
+                    if exit_code == 0:
+                        exit_code = 2
+                    continue
+                prefix = ddmin_list(prefix, lambda pf: zygote.evaluate(pf, cfg, ops, kn)[0] == sig, t_end)
+            small = shrink(machine_cls, cfg, ops, sig, known,
+                           test=lambda o: zygote.evaluate(prefix, cfg, o, kn)[0] == sig)
+            got = zygote.evaluate(prefix, cfg, small, kn)
+            if got[0] == sig:
+                detail = got[1]
+            if prefix:
+                detail = "[needs %d earlier histories in the same process] %s" % (len(prefix), detail)
+            path = write_replay(prop, verif_seed, i, tier, cfg, small, sig, detail, prefix=prefix)
             if fresh_replay(prop, path):
                 reported.append((sig, path, len(ops), len(small)))
                 lines.append("VIOLATION property=%s replay=%s" % (prop, path))
-                lines.append("  signature=%s run=%d ops=%d->%d detail=%s"
-                             % (sig, i, len(ops), len(small), detail[:300]))
+                lines.append("  signature=%s run=%d ops=%d->%d prefix_histories=%d detail=%s"
+                             % (sig, i, len(ops), len(small), len(prefix), detail[:300]))
                 exit_code = 1
             else:
                 lines.append("HARNESS-ERROR property=%s replay of %s did not reproduce %s"
                              % (prop, path, sig))
                 if exit_code == 0:
                     exit_code = 2
+    zygote.close()
 
     for e in known_entries:
         if e["status"] == "known":
